@@ -7,7 +7,7 @@
  "annotate": ["http/http.c"],
  "defines": ["VERIF_HALLOC", "HTTP_N=64", "VERIF_STRMAX=8"],
  "thorough_defines": ["HTTP_N=1024"],
- "models": ["models/http_string.c", "models/http_env.c"],
+ "models": ["models/libc_string.c", "models/http_env.c"],
  "timeout": 300,
  "assumptions": ["buffer object size <= HTTP_N (object-size parameter only)"]
 }
